@@ -110,22 +110,22 @@ def _mk_1d(M, mode):
     return mk
 
 
-def _spec_1d(e_finds, inam, b, j, mode, Tn):
-    """sum_t [finds[t,j] == b+1] * a[t,j]^p  with the same spec function the code's sums use"""
+def _spec_1d(e_finds, inam, d, j, mode, Tn):
+    """sum_t [finds[t,j] == d] * a[t,j]^p  (d = bin number + 1) with the same spec function the code's sums use"""
     def term(t):
         v = inam.elem(t, j)
         if mode == 'energy':
             v = v * v
-        return z3.If(e_finds.elem(t, j) == b + 1, v, z3.RealVal(0))
+        return z3.If(e_finds.elem(t, j) == d, v, z3.RealVal(0))
     return npshim.SUMR(npshim.reify1(term, 'f'), Tn)
 
 
 def _loops_1d(M, mode):
-    def cell(e, b, j):
-        return lift(e.specs[b, j]) == _spec_1d(e.finds, e.inam, lift(b), lift(j), mode, T)
-    inner = [('row-prefix', lambda e: forall(0, e.jj, lambda j: cell(e, e.ii - 1, j))),
-             ('rows-done', lambda e: forall(0, e.ii - 1, lambda b: forall(0, M, lambda j: cell(e, b, j))))]
-    outer = [('rows-done', lambda e: forall(0, e.ii - 1, lambda b: forall(0, M, lambda j: cell(e, b, j))))]
+    def cell(e, d, j):
+        return e.specs.elem(lift(d) - 1, lift(j)) == _spec_1d(e.finds, e.inam, lift(d), lift(j), mode, T)
+    inner = [('row-prefix', lambda e: forall(0, e.jj, lambda j: cell(e, e.ii, j))),
+             ('rows-done', lambda e: forall(1, e.ii, lambda d: forall(0, M, lambda j: cell(e, d, j))))]
+    outer = [('rows-done', lambda e: forall(1, e.ii, lambda d: forall(0, M, lambda j: cell(e, d, j))))]
     return {0: {'inv': outer}, 1: {'inv': inner}}
 
 
@@ -139,9 +139,9 @@ def _post_1d(M, mode):
             f2 = f.copy()
             f2[outside] = float('nan')
             D = npshim.digitize(f2, e)
-        b, j = z3.Ints('pb pj')
+        d, j = z3.Ints('pd pj')
         c.oblige('post:cell-is-sum-over-exactly-the-samples-in-the-bin',
-                 z3.Implies(z3.And(0 <= b, b < NE - 1, 0 <= j, j < M), ret.elem(b, j) == _spec_1d(D, a, b, j, mode, T)), 'post')
+                 z3.Implies(z3.And(1 <= d, d <= NE - 1, 0 <= j, j < M), ret.elem(d - 1, j) == _spec_1d(D, a, d, j, mode, T)), 'post')
         # and the digitised value is the half-open bin of the original frequency for every in-range sample
         t = z3.Int('pt')
         with core.SpecMode():
@@ -169,7 +169,7 @@ def _post_bins(c, args, kw, ret):
     c.oblige('post:ncentres', centres.shape_e[0] == nb, 'post')
     c.oblige('post:edges-linear', z3.Implies(z3.And(0 <= k, k <= nb), edges.elem(k) == lo + (hi - lo) * z3.ToReal(k) / z3.ToReal(nb)), 'post')
     c.oblige('post:edges-increasing', z3.Implies(z3.And(0 <= k, k < nb), edges.elem(k) < edges.elem(k + 1)), 'post')
-    c.oblige('post:first-last', z3.And(edges.elem(0) == lo, edges.elem(nb) == hi), 'post')
+    c.oblige('post:first-last', z3.And(edges.elem(z3.IntVal(0)) == lo, edges.elem(nb) == hi), 'post')
     c.oblige('post:centres-midpoints', z3.Implies(z3.And(0 <= k, k < nb), centres.elem(k) == (edges.elem(k) + edges.elem(k + 1)) / 2), 'post')
 
 
